@@ -121,3 +121,129 @@ theorem lim_rule_first_candidate {g : Grammar} {inp : Array Char} {N : List Stri
   lim_ref hl (lim_choice (limC_first_candidate hw d p hp A t hA es hc))
 
 end Bluebell
+
+namespace Bluebell
+/-! ## big-step rules for sequences, repetitions, options and predicates -/
+
+def LimS (g : Grammar) (inp : Array Char) (es : PItems) (s p i : Nat) (ls : List (String × Nat)) (acc : List Tree) (r : Res) : Prop :=
+  ∃ n0, ∀ n, n0 ≤ n → evalSeq g inp n es s p i ls acc = r
+
+def LimR (g : Grammar) (inp : Array Char) (e : PExp) (s p : Nat) (acc : List Tree) (min : Nat) (r : Res) : Prop :=
+  ∃ n0, ∀ n, n0 ≤ n → evalRep g inp n e s p acc min = r
+
+variable {g : Grammar} {inp : Array Char}
+
+theorem lim_seq {es : PItems} {p : Nat} {r : Res} (h : LimS g inp es p p 0 [] [] r) : Lim g inp (.seq es) p r := by
+  obtain ⟨n0, h0⟩ := h
+  refine ⟨n0 + 1, fun n hn => ?_⟩
+  obtain ⟨m, rfl⟩ : ∃ m, n = m + 1 := ⟨n - 1, by omega⟩
+  simp only [eval]; exact h0 m (by omega)
+
+theorem limS_nil {s p i : Nat} {ls : List (String × Nat)} {acc : List Tree} :
+    LimS g inp .nil s p i ls acc (.ok (.node s p [] ls acc.reverse)) :=
+  ⟨1, fun n hn => by obtain ⟨m, rfl⟩ : ∃ m, n = m + 1 := ⟨n - 1, by omega⟩; simp [evalSeq]⟩
+
+theorem limS_cons_ok {names : List String} {e : PExp} {es : PItems} {s p i : Nat} {ls : List (String × Nat)}
+    {acc : List Tree} {t : Tree} {r : Res} (h : Lim g inp e p (.ok t))
+    (hr : LimS g inp es s t.stop (i + 1) (addLabels ls names i) (t :: acc) r) :
+    LimS g inp (.cons names e es) s p i ls acc r := by
+  obtain ⟨n0, h0⟩ := h
+  obtain ⟨n1, h1⟩ := hr
+  refine ⟨max n0 n1 + 1, fun n hn => ?_⟩
+  obtain ⟨m, rfl⟩ : ∃ m, n = m + 1 := ⟨n - 1, by omega⟩
+  have hm0 : n0 ≤ m := by have := Nat.le_max_left n0 n1; omega
+  have hm1 : n1 ≤ m := by have := Nat.le_max_right n0 n1; omega
+  simp only [evalSeq, h0 m hm0]
+  exact h1 m hm1
+
+theorem limS_cons_fail {names : List String} {e : PExp} {es : PItems} {s p i : Nat} {ls : List (String × Nat)}
+    {acc : List Tree} (h : Lim g inp e p .fail) : LimS g inp (.cons names e es) s p i ls acc .fail := by
+  obtain ⟨n0, h0⟩ := h
+  refine ⟨n0 + 1, fun n hn => ?_⟩
+  obtain ⟨m, rfl⟩ : ∃ m, n = m + 1 := ⟨n - 1, by omega⟩
+  simp only [evalSeq, h0 m (by omega)]
+
+theorem lim_star {e : PExp} {p : Nat} {r : Res} (h : LimR g inp e p p [] 0 r) : Lim g inp (.star e) p r := by
+  obtain ⟨n0, h0⟩ := h
+  refine ⟨n0 + 1, fun n hn => ?_⟩
+  obtain ⟨m, rfl⟩ : ∃ m, n = m + 1 := ⟨n - 1, by omega⟩
+  simp only [eval]; exact h0 m (by omega)
+
+theorem lim_plus {e : PExp} {p : Nat} {r : Res} (h : LimR g inp e p p [] 1 r) : Lim g inp (.plus e) p r := by
+  obtain ⟨n0, h0⟩ := h
+  refine ⟨n0 + 1, fun n hn => ?_⟩
+  obtain ⟨m, rfl⟩ : ∃ m, n = m + 1 := ⟨n - 1, by omega⟩
+  simp only [eval]; exact h0 m (by omega)
+
+theorem limR_stop {e : PExp} {s p : Nat} {acc : List Tree} {min : Nat} (h : Lim g inp e p .fail)
+    (hm : min ≤ acc.length) : LimR g inp e s p acc min (.ok (.node s p [] [] acc.reverse)) := by
+  obtain ⟨n0, h0⟩ := h
+  refine ⟨n0 + 1, fun n hn => ?_⟩
+  obtain ⟨m, rfl⟩ : ∃ m, n = m + 1 := ⟨n - 1, by omega⟩
+  rw [evalRep, h0 m (by omega)]
+  simp [hm]
+
+theorem limR_step {e : PExp} {s p : Nat} {acc : List Tree} {min : Nat} {t : Tree} {r : Res}
+    (h : Lim g inp e p (.ok t)) (hp : p < t.stop) (hr : LimR g inp e s t.stop (t :: acc) min r) :
+    LimR g inp e s p acc min r := by
+  obtain ⟨n0, h0⟩ := h
+  obtain ⟨n1, h1⟩ := hr
+  refine ⟨max n0 n1 + 1, fun n hn => ?_⟩
+  obtain ⟨m, rfl⟩ : ∃ m, n = m + 1 := ⟨n - 1, by omega⟩
+  have hm0 : n0 ≤ m := by have := Nat.le_max_left n0 n1; omega
+  have hm1 : n1 ≤ m := by have := Nat.le_max_right n0 n1; omega
+  rw [evalRep, h0 m hm0]
+  have : ¬ t.stop ≤ p := by omega
+  simp only [this, if_false]
+  exact h1 m hm1
+
+theorem lim_opt_fail {e : PExp} {p : Nat} (h : Lim g inp e p .fail) : Lim g inp (.opt e) p (.ok (Tree.leaf p p)) := by
+  obtain ⟨n0, h0⟩ := h
+  refine ⟨n0 + 1, fun n hn => ?_⟩
+  obtain ⟨m, rfl⟩ : ∃ m, n = m + 1 := ⟨n - 1, by omega⟩
+  simp only [eval, h0 m (by omega)]
+
+theorem lim_opt_ok {e : PExp} {p : Nat} {t : Tree} (h : Lim g inp e p (.ok t)) : Lim g inp (.opt e) p (.ok t) := by
+  obtain ⟨n0, h0⟩ := h
+  refine ⟨n0 + 1, fun n hn => ?_⟩
+  obtain ⟨m, rfl⟩ : ∃ m, n = m + 1 := ⟨n - 1, by omega⟩
+  simp only [eval, h0 m (by omega)]
+
+theorem lim_not_fail {e : PExp} {p : Nat} (h : Lim g inp e p .fail) : Lim g inp (.notP e) p (.ok (Tree.leaf p p)) := by
+  obtain ⟨n0, h0⟩ := h
+  refine ⟨n0 + 1, fun n hn => ?_⟩
+  obtain ⟨m, rfl⟩ : ∃ m, n = m + 1 := ⟨n - 1, by omega⟩
+  simp only [eval, h0 m (by omega)]
+
+theorem lim_not_ok {e : PExp} {p : Nat} {t : Tree} (h : Lim g inp e p (.ok t)) : Lim g inp (.notP e) p .fail := by
+  obtain ⟨n0, h0⟩ := h
+  refine ⟨n0 + 1, fun n hn => ?_⟩
+  obtain ⟨m, rfl⟩ : ∃ m, n = m + 1 := ⟨n - 1, by omega⟩
+  simp only [eval, h0 m (by omega)]
+
+theorem lim_typed_fail {e : PExp} {ty : String} {p : Nat} (h : Lim g inp e p .fail) : Lim g inp (.typed ty e) p .fail := by
+  obtain ⟨n0, h0⟩ := h
+  refine ⟨n0 + 1, fun n hn => ?_⟩
+  obtain ⟨m, rfl⟩ : ∃ m, n = m + 1 := ⟨n - 1, by omega⟩
+  simp only [eval, h0 m (by omega)]
+
+theorem lim_ref_undefined {A : String} {p : Nat} (hl : g.lookup A = none) : Lim g inp (.ref A) p .fail :=
+  ⟨1, fun n hn => by obtain ⟨m, rfl⟩ : ∃ m, n = m + 1 := ⟨n - 1, by omega⟩; simp [eval, hl]⟩
+
+theorem lim_lit_fail {s : List Char} {p : Nat} (h : litMatch inp p s = false) : Lim g inp (.lit s) p .fail :=
+  ⟨1, fun n hn => by obtain ⟨m, rfl⟩ : ∃ m, n = m + 1 := ⟨n - 1, by omega⟩; simp [eval, h]⟩
+
+theorem limC_nil {p : Nat} : LimC g inp .nil p .fail :=
+  ⟨1, fun n hn => by obtain ⟨m, rfl⟩ : ∃ m, n = m + 1 := ⟨n - 1, by omega⟩; simp [evalChoice]⟩
+
+/-- an expression that cannot start with the next character evaluates to failure, provided it
+evaluates to something (which `peg_terminates` gives for rules of a certified grammar) -/
+theorem lim_fail_of_lim_and_cannot_start {e : PExp} {p : Nat} {r : Res} (d : Nat) (h : Lim g inp e p r)
+    (hm : mayStart g d e inp[p]? = false) (hd : r.done) : r = .fail := by
+  obtain ⟨n0, h0⟩ := h
+  cases r with
+  | fail => rfl
+  | oof => exact absurd hd Res.not_done_oof
+  | ok t => exact absurd (h0 n0 (Nat.le_refl _)) (cannot_start g inp d e p hm n0 t)
+
+end Bluebell
